@@ -25,3 +25,6 @@ CHECKS["C18"] = check_export.run
 
 import check_assemble
 CHECKS["C17"] = check_assemble.run
+
+import check_text
+CHECKS["C11"] = check_text.run
